@@ -690,6 +690,15 @@ func main() {
 				for _, iss := range sf.Isss {
 					c := Conf{Keys: ks, Aud: aud, Iss: iss}
 					w, err := newWorld(c, nil, []string{"e", "e1"})
+					if err != nil && strings.Contains(err.Error(), "401") {
+						// the set-up listener presented a valid token for this configuration and was refused: that is
+						// an observation about the port (a valid token must be accepted), not a failure of the harness
+						reset()
+						emit(&Step{Op: "Auth", Port: "upstream", Route: "GET /piko/v1/upstream/e (set-up listener)", Conf: c,
+							Tok: goodTok(c), Hdr: Hdr{X: "absent", Authz: "good", Scheme: "Bearer"}, Tgt: Tgt{Host: "e"},
+							Status: 401})
+						continue
+					}
 					if err != nil {
 						fmt.Fprintln(os.Stderr, "aeng: start:", err)
 						os.Exit(2)
